@@ -145,8 +145,11 @@ pub fn c03_from_iter<const N: usize>() {
     while i <= N { keys[i] = vf::any_u8(); let mut j = 0; while j < i { vf::assume(keys[j] != keys[i]); j += 1; } i += 1; }
     let panics0 = vf::panics();
     let mut pulled = 0usize;
+    // the source reports a solver-chosen size_hint that honours the Iterator contract (lower <= N+1 <= upper, or no upper bound)
+    let (lo, hi, has_hi) = (vf::any_usize(), vf::any_usize(), vf::any_bool());
+    vf::assume(lo <= N + 1 && hi >= N + 1);
     let panicked = vf::catch(|| {
-        let it = (0..N + 1).map(|i| { pulled += 1; (Tok::new(keys[i]), Tok::new(i as u8)) });
+        let it = Hinted { it: (0..N + 1).map(|i| { pulled += 1; (Tok::new(keys[i]), Tok::new(i as u8)) }), lo, hi: if has_hi { Some(hi) } else { None } };
         let m: Map<Tok, Tok, N> = it.collect();
         drop(m);
     });
@@ -155,6 +158,14 @@ pub fn c03_from_iter<const N: usize>() {
     if vf::COUNTS_PANICS { vf::check(vf::panics() == panics0 + 1, 712); }
     vf::check(pulled == N + 1, 715);
     vf::check(tok::balanced(), 302); // the half-built map and the rejected pair were all destroyed exactly once
+}
+
+/// wraps an iterator and reports a given (contract-abiding) size_hint for the full sequence
+pub struct Hinted<I> { pub it: I, pub lo: usize, pub hi: Option<usize> }
+impl<I: Iterator> Iterator for Hinted<I> {
+    type Item = I::Item;
+    fn next(&mut self) -> Option<I::Item> { self.lo = self.lo.saturating_sub(1); self.hi = self.hi.map(|h| h.saturating_sub(1)); self.it.next() }
+    fn size_hint(&self) -> (usize, Option<usize>) { (self.lo, self.hi) }
 }
 
 pub fn c03_set_insert<const N: usize>() {
@@ -195,7 +206,9 @@ pub fn c03_set_extend<const N: usize>() {
     vf::assume(!md.has(k));
     let dup = if N > 0 { md.keys[0] } else { k };
     let panics0 = vf::panics();
-    let panicked = { let s = &mut g.c; vf::catch(move || { s.extend([Tok::new(dup), Tok::new(k), Tok::new(k)]); }) };
+    let (lo, hi, has_hi) = (vf::any_usize(), vf::any_usize(), vf::any_bool());
+    vf::assume(lo <= 3 && hi >= 3);
+    let panicked = { let s = &mut g.c; vf::catch(move || { s.extend(Hinted { it: [Tok::new(dup), Tok::new(k), Tok::new(k)].into_iter(), lo, hi: if has_hi { Some(hi) } else { None } }); }) };
     if panicked { vf::reach(1); }
     vf::check(panicked, 711);
     if vf::COUNTS_PANICS { vf::check(vf::panics() == panics0 + 1, 712); }
